@@ -142,3 +142,40 @@ package oj
 //@     invariant [C01 sim] EqButOff(spec.Run(qi, S, base+o1+$k+1), R1) && spec.Run(qi, S, base+o1+$k+1).Off == base+o1+$k+1
 //@     invariant [C01 sim] $k >= 0 ==> EqButOff(spec.Run(qi, S, base+o1+$k), R1) && spec.Run(qi, S, base+o1+$k).Off == base+o1+$k
 //@     use spec.Run.unfold(qi, S, base+o1+$k+1)
+
+// ---------------------------------------------------------------------------
+// Once the automaton is in the error state it stays there, unchanged.
+
+//@ pred EqState(a, b) = EqButOff(a, b) && a.Off == b.Off
+
+//@ lemma ErrAbsorbing(q spec.JState, S seq, n int, m int) [C01 C09] by induction on m:
+//@     0 <= n && n <= m && spec.Run(q, S, n).Ph == spec.Err ==> EqState(spec.Run(q, S, m), spec.Run(q, S, n))
+//@   use spec.Run.unfold(q, S, m)
+
+// ---------------------------------------------------------------------------
+// Entry point: Validate accepts exactly the texts the specification accepts
+// (after an optional BOM), from any prior state of the Validator (C07).
+
+//@ func (*Validator).Validate
+//@   ghost S seq, zero int, T seq
+//@   opt stream = buf, S, zero
+//@   requires zero == 0 && S.Len() == len(buf) && len(buf) <= 1099511627776
+//@   requires forall j: 0 <= j && j < len(buf) - 3 ==> T[j] == S[j+3]
+//@   requires [own] arrid(p.stack) != arrid(buf)
+//@   modifies p.stack, p.ri, p.mode, p.nextMode, p.line, p.noff, heap(p.stack)
+//@   let hasBOM = 2 < len(buf) && S[0] == 0xEF && S[1] == 0xBB && S[2] == 0xBF
+//@   ensures [C01 C07 accept] !hasBOM ==> (err == nil <==> spec.AcceptEOF(spec.Run(spec.Init(!p.OnlyOne), S, len(buf))))
+//@   ensures [C01 C07 accept-bom] hasBOM ==> (err == nil <==> spec.AcceptEOF(spec.Run(spec.Init(!p.OnlyOne), T, len(buf) - 3)))
+//@   use ErrAbsorbing(spec.Init(!p.OnlyOne), S, as(err, ParseError).Column + p.noff + 1, len(buf))
+//@   use spec.Run.unfold(spec.Init(!p.OnlyOne), S, 0), ErrAbsorbing(spec.Init(!p.OnlyOne), S, 1, len(buf))
+//@   use ErrAbsorbing(spec.Init(!p.OnlyOne), T, as(err, ParseError).Column + p.noff + 1, len(buf) - 3)
+//@   at call validateBuffer#0
+//@     with S = T
+//@     with base = 0
+//@     with qi = spec.Init(!p.OnlyOne)
+//@     use spec.Run.unfold(spec.Init(!p.OnlyOne), T, 0)
+//@   at call validateBuffer#1
+//@     with S = S
+//@     with base = 0
+//@     with qi = spec.Init(!p.OnlyOne)
+//@     use spec.Run.unfold(spec.Init(!p.OnlyOne), S, 0)
